@@ -1335,6 +1335,10 @@ val claims_inert : vt -> n list -> bool
 
 val known_C20 : n list -> bool
 
+val holds_C06_modes : vt -> func -> vt -> bool
+
+val holds_C06_resize : vt -> vt -> bool
+
 val logical_go : line list -> cell list -> cell list list
 
 val logical : line list -> cell list list
